@@ -116,6 +116,13 @@ _g(r"ctx->retry_time\s*>\s*now\s*\|\|\s*\(ctx->req_msg\s*==\s*NULL\)", _rq, "req
 _g(r"if\s*\(hops\s*>\s*ttl\)", _rp, "rep0_pipe_recv_cb hop test", _D + "rep.c")
 _g(r"if\s*\(hops\s*>\s*ttl\)", _xp, "xrep0_pipe_recv_cb hop test", _D + "xrep.c")
 _g(r"ctx->btrace_len\s*=\s*0;\s*ctx->pipe_id\s*=\s*0;", _rp, "rep0_ctx_send clears the backtrace", _D + "rep.c")
+# ids and headers (ReqIdsProofs: the id map holds the ids of the requests held now; cooked sends ignore the application's header)
+_g(r"if\s*\(ctx->request_id\s*!=\s*0\)\s*\{\s*nni_id_remove\(&s->requests,\s*ctx->request_id\);\s*ctx->request_id\s*=\s*0;\s*\}", _reset,
+   "req0_ctx_reset retires the request id whenever one is set (independently of req_msg)", _D + "req.c")
+_g(r"nni_msg_header_clear\(msg\);\s*nni_msg_header_append_u32\(msg,\s*ctx->request_id\);", _body(_rq, "req0_ctx_send", _D + "req.c"),
+   "req0_ctx_send replaces the application's header by the request id", _D + "req.c")
+_g(r"msg\s*=\s*nni_aio_get_msg\(aio\);\s*nni_msg_header_clear\(msg\);", _body(_rp, "rep0_ctx_send", _D + "rep.c"),
+   "rep0_ctx_send clears the application's header before appending the backtrace", _D + "rep.c")
 _rs = _body(_mq, "nni_msgq_resize", "src/core/msgqueue.c")
 extra_text.append("Definition C04_MSGQ_RESIZE_FIXED : bool := %s.  (* msgqueue.c nni_msgq_resize re-runs the waiter queues and run_notify *)"
                   % ("true" if re.search(r"nni_msgq_run_putq\(mq\);\s*nni_msgq_run_getq\(mq\);\s*nni_msgq_run_notify\(mq\);\s*nni_mtx_unlock", _rs) else "false"))
